@@ -178,8 +178,15 @@ func tap(p *P) func() hc.Config {
 		var errs []int
 		for i := range p._stack {
 			st[i] = p._stack[i].State
-			if e, ok := p._stack[i].Sym.(Error); ok {
-				errs = append(errs, e.Token.Seq)
+			switch e := p._stack[i].Sym.(type) {
+			case Error:
+				if e.Token.Seq != 0 { // the empty alternative of '@error?' leaves a zero Error: no error
+					errs = append(errs, e.Token.Seq)
+				}
+			case []Error:
+				for _, x := range e {
+					errs = append(errs, x.Token.Seq)
+				}
 			}
 		}
 		return hc.Config{States: st, La: p._la, Qla: p._qla, Errs: errs}
